@@ -332,8 +332,14 @@ impl HitObjectsState {
 
     /// Whether the last object was a spinner.
     fn last_object_was_spinner(&self) -> bool {
-        self.last_object
-            .is_some_and(|kind| kind.has_flag(HitObjectType::SPINNER))
+        // A type with multiple kind flags is parsed by the precedence
+        // circle > slider > spinner so only check for a spinner if it was
+        // actually parsed as such.
+        self.last_object.is_some_and(|kind| {
+            !kind.has_flag(HitObjectType::CIRCLE)
+                && !kind.has_flag(HitObjectType::SLIDER)
+                && kind.has_flag(HitObjectType::SPINNER)
+        })
     }
 
     /// Given a `&str` iterator, this method prepares a slice and provides
